@@ -59,7 +59,7 @@ pub const QUERIES: &[&str] = &["", "a=1", "a=", "a", "b=2&a=1", "a=2&a=1", "a=1&
     // names whose order changes when they are escaped (the canonical form sorts the *escaped* names): ':' sorts after '1',
     // "%3A" before it; 'é' sorts after 'e', "%C3%A9" before it - in both wire orders
     "x-a1=1&x-a%3Ab=2", "x-a%3Ab=2&x-a1=1", "name=1&nam%C3%A9=2", "nam%C3%A9=2&name=1"];
-const HDR_VARIANTS: usize = 10;
+const HDR_VARIANTS: usize = 12;
 
 fn hdr_variant(r: &mut Req, v: usize) {
     match v {
@@ -85,8 +85,46 @@ fn hdr_variant(r: &mut Req, v: usize) {
             r.headers.push(("x-amz-meta-a".into(), b"a".to_vec()));
             r.headers.push(("x-amz-meta-a".into(), b"b".to_vec()));
         }
+        // runs of 3, 4 and 5 blanks (each run collapses to one), and tabs
+        10 => r.headers.push(("x-amz-meta-a".into(), b"a   b    c     d".to_vec())),
+        11 => r.headers.push(("x-amz-meta-a".into(), b"a \t b\t\tc".to_vec())),
         _ => unreachable!(),
     }
+}
+
+/// Secrets of every length around the sizes of fixed buffers: an honest request signed with the provider's secret is
+/// accepted, the same request under a secret that differs in its last character is refused.
+fn secret_lengths(acc: &mut Acc) -> usize {
+    let lens = [1usize, 2, 39, 40, 41, 59, 60, 61, 63, 64, 65, 123, 124, 125, 127, 128, 129, 255, 256, 257, 1000, 5000];
+    for &n in &lens {
+        let secret: String = (0..n).map(|i| char::from(b'a' + (i % 26) as u8)).collect();
+        let mut other = secret.clone().into_bytes();
+        *other.last_mut().unwrap() = b'/';
+        let other = String::from_utf8(other).unwrap();
+        for (what, stored, accept) in [("the provider holds the signing secret", secret.clone(), true), ("the provider holds a secret differing in its last character", other, false)] {
+            let id = || format!("secret-length/{n}/{accept}");
+            if !acc.selected(&id) {
+                continue;
+            }
+            acc.eval();
+            acc.nontrivial(fnv(id().as_bytes()));
+            let mut r = Req::new("PUT", "/bkt/k?a=1").header("host", HOST).header("content-length", "5").header("x-amz-meta-a", "v");
+            sign_v4_header(&mut r, &secret, &scope(), DATE, &sha256_hex(b"hello"), &["content-length", "x-amz-meta-a"]);
+            let keys = vec![(AK.to_owned(), stored.clone())];
+            let k2 = keys.clone();
+            let sof = move |ak: &str| k2.iter().find(|x| x.0 == ak).map(|x| x.1.clone());
+            let reference = verify_v4_header(&r, b"hello", &sof);
+            let obs = observe(&SvcCfg { keys: Some(keys), access: AccessMode::Allow, ..Default::default() }, &r, body_one_frame(b"hello"));
+            acc.outcome(&format!("secret length: ref={} impl={}", reference.accepted(), obs.accepted_as.is_some()));
+            if reference.accepted() != accept {
+                crate::common::machinery_failure("reference verifier disagrees with the construction of the secret-length case");
+            }
+            if let Some((kind, msg)) = judge(&reference, &obs, &sof) {
+                acc.fail(&format!("C05/{kind}/secret-of-another-length"), n as u64, id(), format!("secret of {n} bytes, {what}: {msg}"), json!({"secret_length": n}));
+            }
+        }
+    }
+    lens.len() * 2
 }
 
 fn bases(tier: Tier) -> Vec<Base> {
@@ -636,6 +674,7 @@ pub fn run(ctx: &Ctx) -> (Acc, Report) {
         use crate::props::authhist::Scheme;
         crate::props::authhist::explore(&mut acc, "C05", &[Scheme::V4Header], 3)
     };
+    let n_secret_lengths = secret_lengths(&mut acc);
     let bs = bases(ctx.tier);
     let n_bases = bs.len();
     let epoch = amz_date_to_epoch(DATE).unwrap();
@@ -728,9 +767,9 @@ pub fn run(ctx: &Ctx) -> (Acc, Report) {
     }
     let rep = Report {
         level: "exploration",
-        rule: format!("{n_bases} honestly signed base requests (method x 17 paths x 15 query multisets (incl. names whose order changes when they are escaped) x 10 signed-header shapes x payload/mode x HTTP/1.1|HTTP/2), each with every applicable single-component mutation (each signed header value/name/removal, each query pair, each path byte, method, each body byte, each signature digit, each scope field, dates, provider secret, signed-header list) and 6 canonical-equivalent rewrites; oracle = reference verifier on the same bytes. Distinct by (base, mutation) id; every evaluated case is non-trivial (it reaches signature comparison or a parse refusal)."),
+        rule: format!("{n_bases} honestly signed base requests (method x 17 paths x 15 query multisets (incl. names whose order changes when they are escaped) x 12 signed-header shapes (incl. runs of 3-5 blanks and tabs) x payload/mode x HTTP/1.1|HTTP/2), each with every applicable single-component mutation (each signed header value/name/removal, each query pair, each path byte, method, each body byte, each signature digit, each scope field, dates, provider secret, signed-header list) and 6 canonical-equivalent rewrites; oracle = reference verifier on the same bytes. Distinct by (base, mutation) id; every evaluated case is non-trivial (it reaches signature comparison or a parse refusal)."),
         exhaustive: true,
-        extra: json!({"histories": hist_n, "history_requests_executed": hist_steps, "history_rule": "all sequences of length 1..3 over 8 requests of this property's scheme(s) (two identities x honest / signed with the other identity's secret x two scopes) plus every pair led by a request of another scheme, on one service instance, single-threaded, fixed order; each verdict = the reference verdict of that request alone", "base_requests": n_bases, "quick_tier_note": "quick keeps grid points where at most one of (path, query, header-shape, http2) is beyond its first two values; thorough is the full product"}),
+        extra: json!({"histories": hist_n, "history_requests_executed": hist_steps, "history_rule": "all sequences of length 1..3 over 8 requests of this property's scheme(s) (two identities x honest / signed with the other identity's secret x two scopes) plus every pair led by a request of another scheme, on one service instance, single-threaded, fixed order; each verdict = the reference verdict of that request alone", "base_requests": n_bases, "secret_length_cases": n_secret_lengths, "secret_length_rule": "provider secrets of 1, 2, 39-41, 59-65, 123-129, 255-257, 1000 and 5000 bytes: an honest request is accepted, and refused when the stored secret differs in its last character", "quick_tier_note": "quick keeps grid points where at most one of (path, query, header-shape, http2) is beyond its first two values; thorough is the full product"}),
         assumptions: vec![
             "reference signer/verifier written from the AWS SigV4 specification; validated on the documentation vectors at start-up and against aws-sigv4 on every grid point (disagreeing points are excluded and counted)".into(),
             "HMAC/SHA collisions out of scope".into(),
